@@ -55,6 +55,8 @@ Next == /\ i < Len(T[tr].ev) /\ i' = i + 1 /\ UNCHANGED tr
                         <<~inFn, "function-invoked-while-already-executing">>,
                         \* not before this schedule can have started
                         <<k = 0 \/ base < 0 \/ e.c + 1 >= lb \/ preRestart, "schedule-active-before-its-start-delay">>,
+                        \* a schedule's ticker is created when the schedule starts: its first tick is one period later
+                        <<k = 0 \/ base < 0 \/ preRestart \/ e.c + 1 < lb \/ e.c + 1 >= lb + e.a, "function-invoked-before-the-first-tick-of-its-schedule">>,
                         \* at most once per tick of the active schedule
                         <<k = 0 \/ base < 0 \/ e.c + 1 < lb \/ cnt[kk] + 1 <= 1 + ((e.c + 1 - lb) \div e.a), "more-invocations-than-ticks">> >>)
                   /\ inFn' = TRUE
